@@ -78,6 +78,8 @@ func perturber(seed uint64, ov *overlap) func(who, point string) {
 	}
 }
 
+var uidCounter int64 = 300000
+
 type fail struct {
 	mu  sync.Mutex
 	err error
@@ -143,8 +145,17 @@ func runUfs(c *Case) error {
 		return err
 	}
 	defer os.RemoveAll(dir)
+	// files owned by uids the process has never seen: their stat goes through
+	// the user pool's insert path while other requests read it
+	base := int(atomic.AddInt64(&uidCounter, 4096))
 	for i := 0; i < c.NConn; i++ {
-		_ = os.MkdirAll(filepath.Join(dir, fmt.Sprintf("conn%d", i)), 0o755)
+		d := filepath.Join(dir, fmt.Sprintf("conn%d", i))
+		_ = os.MkdirAll(d, 0o755)
+		for k := 0; k < 32; k++ {
+			fn := filepath.Join(d, fmt.Sprintf("own%d", k))
+			_ = os.WriteFile(fn, []byte("x"), 0o644)
+			_ = os.Chown(fn, base+i*64+k, base+2048+i*64+k)
+		}
 	}
 	u := ufsrv.Start(dir, c.Dotu, 8192)
 	if c.Debug {
@@ -179,7 +190,8 @@ func runUfs(c *Case) error {
 	go func() {
 		defer wg.Done()
 		for k := 0; k < c.Churn; k++ {
-			clnt, _, err := ufsrv.Mount(u, fmt.Sprintf("c19-churn%d", k), "conn0", 4096)
+			h := ufsrv.Conn(u, fmt.Sprintf("c19-churn%d", k))
+			clnt, err := go9p.MountConn(h, "conn0", 4096, go9p.OsUsers.Uid2User(base+3000+k)) // a uid never seen before
 			if err != nil {
 				f.set("churn mount: %v", err)
 				return
@@ -247,6 +259,11 @@ func ufsWorker(c *Case, clnt *go9p.Clnt, hostdir string, g int, f *fail) {
 			}
 		case "statroot":
 			if _, err := clnt.FStat("/"); err != nil {
+				f.set("%s: %v", what, err)
+				return
+			}
+		case "statowned":
+			if d, err := clnt.FStat(fmt.Sprintf("own%d", (g*7+k)%32)); err != nil || d.Length != 1 {
 				f.set("%s: %v", what, err)
 				return
 			}
@@ -385,7 +402,7 @@ func scriptWorker(c *Case, clnt *go9p.Clnt, ci, g int, f *fail) {
 			} else {
 				_ = clnt.Wstat(fid, &go9p.Dir{Name: "r" + name})
 			}
-		case "stat", "statroot", "walkmissing", "readdir":
+		case "stat", "statroot", "statowned", "walkmissing", "readdir":
 			if _, err := clnt.Stat(fid); err != nil {
 				f.set("%s: %v", what, err)
 				return
@@ -408,6 +425,11 @@ func scriptWorker(c *Case, clnt *go9p.Clnt, ci, g int, f *fail) {
 // ---- scripted implementation through raw connections with flushes
 func runScriptRaw(c *Case) error {
 	sv := script.NewServer(script.Config{Msize: 8192, Dotu: c.Dotu, Maxpend: c.Maxpend, Flush: script.FlushCancel})
+	if c.Flush {
+		// the implementation dwells a little, so that a Tflush finds the request
+		// inside it, cancels it, and the cancelled operation answers late
+		sv.S.Default = script.Behav{DelayUS: 100 + int(c.Perturb%400)}
+	}
 	f := &fail{}
 	var wg sync.WaitGroup
 	for ci := 0; ci < c.NConn; ci++ {
@@ -514,7 +536,7 @@ func bucket(n int) string {
 	return "7-16"
 }
 
-var opKinds = []string{"create", "write", "read", "stat", "statroot", "wstat", "readdir", "remove", "walkmissing"}
+var opKinds = []string{"create", "write", "read", "stat", "statroot", "statowned", "statowned", "wstat", "readdir", "remove", "walkmissing"}
 
 func TestPropWorkloads(t *testing.T) {
 	hx.Check(t, "workloads", hx.N(90, 900), func(t *rapid.T) {
